@@ -120,6 +120,32 @@ def replay_file(res, prop, path, variant=None):
     return bad
 
 
+def corpus(res, prop, variant=None, runner=None):
+    """Run the committed minimal cases of corpus/<prop>/ first (every finding and false alarm met so far)."""
+    import glob
+    d = os.path.join(vlib.VERIF, "corpus", prop)
+    files = sorted(glob.glob(os.path.join(d, "*.txt")))
+    cases = []
+    for f in files:
+        txt = open(f).read()
+        if "--- script" not in txt:
+            continue
+        body = txt.split("--- script\n", 1)[1].split("--- C side", 1)[0]
+        lines = body.strip().split("\n")
+        cid = "corpus-" + os.path.basename(f)[:-4]
+        opn = lines[0][5:].strip().split("-")[0]
+        cases.append(corr.Case(cid, lines[1:-1] if lines[-1].startswith("end") else lines[1:], {"op": opn, "corpus": os.path.basename(f)}))
+    if not cases:
+        return
+    runner = runner or corr.Runner(variant)
+    cout, mout = runner.run(cases)
+    bad = corr.compare(cases, cout, mout)
+    for c in cases:
+        res.count(("corpus", c.id))
+    res.cov["corpus_cases"] = res.cov.get("corpus_cases", 0) + len(cases)
+    handle_mismatches(res, prop, bad, runner, tag="/corpus")
+
+
 def proof_part(res, prop_files, search=None):
     """Re-check the Coq theorems. A broken obligation => run search(); report."""
     allok = True
